@@ -16,7 +16,7 @@ pub const KINDS: [&str; 15] = [
 /// Fixed age identity strings (mock::age generates a random one).
 const AGE_KEYS: [&str; 2] = [
     "AGE-SECRET-KEY-1GFPYYSJZGFPYYSJZGFPYYSJZGFPYYSJZGFPYYSJZGFPYYSJZGFPQ4EGAEX",
-    "AGE-SECRET-KEY-1FPYYSJZGFPYYSJZGFPYYSJZGFPYYSJZGFPYYSJZGFPYQJ5C5XA",
+    "AGE-SECRET-KEY-1V3JKVEMGD94XKMRDDEHHQUTJWD682ANH0PUH57MU04L8LQYPS2PSGQPNYW",
 ];
 
 /// Generate (meta, secret) for `kind`; `variant` selects one of a few
